@@ -58,7 +58,12 @@ func init() {
 		var outs []string
 		last := ""
 		payloadOK := true
-		for _, op := range mops {
+		for oi, op := range mops {
+			if oi == len(mops)-1 && c.has("failAtLast") {
+				// arm the writer fault relative to the first Write of the last call
+				w.failAt = w.calls + int(c.num("failAtLast"))
+				w.once = c.boolean("once")
+			}
 			before := w.buf.Len()
 			acceptedBefore := w.accepted
 			call := func(kind string, f func() (int, error)) {
